@@ -59,8 +59,12 @@ func (d *direct) RegisterRequestVoteHandler(h func(*raft.RequestVoteRequest, *ra
 func (d *direct) RegsiterInstallSnapshotHandler(h func(*raft.InstallSnapshotRequest, *raft.InstallSnapshotResponse) error) {
 	d.is = h
 }
-func (d *direct) EncodeConfiguration(c *raft.Configuration) ([]byte, error) { return raft.VerifEncodeConfiguration(c) }
-func (d *direct) DecodeConfiguration(b []byte) (raft.Configuration, error) { return raft.VerifDecodeConfiguration(b) }
+func (d *direct) EncodeConfiguration(c *raft.Configuration) ([]byte, error) {
+	return raft.VerifEncodeConfiguration(c)
+}
+func (d *direct) DecodeConfiguration(b []byte) (raft.Configuration, error) {
+	return raft.VerifDecodeConfiguration(b)
+}
 func (d *direct) peer(addr string) (*direct, error) {
 	d.n.mu.Lock()
 	defer d.n.mu.Unlock()
@@ -190,7 +194,7 @@ func child(prog string, nnodes int, dir string) {
 			}
 		case "config":
 			c := n0.Configuration()
-			say("config -> %d members", len(strings.Split(c.String(), "(")) - 1)
+			say("config -> %d members", len(strings.Split(c.String(), "("))-1)
 		case "submit":
 			ty, _ := strconv.Atoi(f[1])
 			fut := n0.SubmitOperation([]byte("x"), raft.OperationType(ty), futureTimeout)
